@@ -44,6 +44,7 @@ structure Work (L Z R : Type) where
   parse : List L → Except Err Z                           -- `read_zone`
   check : Routine → Nat → List (List L) → Except Err Unit -- chain / residue checks (stage 0, 1) that may raise before further I/O
   score : Routine → Option Z → List (List L) → Except Err R
+  sameAtoms : List (List L) → Bool                        -- superpose: do the two selections hold the same atoms?
   exportLines : Routine → Nat → List (List L) → List L    -- what is written to the n-th requested output
 
 /-- the paths of one call -/
@@ -163,7 +164,11 @@ def prog (W : Work L Z R) (r : Routine) (a : Args P) : Prog P L R :=
   | .fnatSql => checked W r none [.load a.decoy, .load a.ref] [] fun _ res => finish res
   | .clashes => checked W r none [.load a.decoy] [] fun _ res => finish res
   | .contacts => checked W r none [.load a.decoy] [] fun _ res => finish res
-  | .superpose => checked W r none [.load a.decoy, .load a.ref] [] fun obs res => export1 W r a obs res
+  | .superpose =>
+      -- rarely taken branch: selections with different atoms -> `get_intersection` builds a many2sql of both
+      -- structures and a second one for the selection (two more in-memory databases, no file)
+      checked W r none [.load a.decoy, .load a.ref] [] fun obs res =>
+        if W.sameAtoms obs then export1 W r a obs res else .dbMem (.dbMem (export1 W r a obs res))
   | .align => checked W r none [.load a.decoy] [] fun obs res => export1 W r a obs res
   | .pairsRef => checked W r none [.load a.ref] [] fun obs res => export1 W r a obs res
   | .lzone | .izone =>
@@ -199,15 +204,19 @@ def Args.outs (a : Args P) : P → Prop := fun o => a.out1 = some o ∨ a.out2 =
     (absent, different from everybody else's, not an input, not the cache); requested outputs are not inputs, not the
     cache, not a temp name; the zone that is computed and written can be read back (`read_zone (write_zone z) = z` for the zones of
     this reference: C09 `read_write_zone`; false only for the chain identifier `-`, finding C09-F4). -/
-structure SharedZoneRun (W : Work L Z R) (fs₀ : FS P L) (isInput : P → Prop) (ref cache : P) (zr : Routine)
+structure SharedZoneDir (fs₀ : FS P L) (isInput : P → Prop) (ref cache : P) (zr : Routine)
     (calls : List (Routine × Args P)) : Prop where
-  roundtrip : ∀ rc, W.parse (W.render (W.compute zr rc)) = .ok (W.compute zr rc)
   cache_not_input : ¬ isInput cache
   inputs : ∀ c ∈ calls, isInput c.2.decoy ∧ isInput c.2.ref
   zone : ∀ c ∈ calls, c.2.zone = none ∨ (c.2.zone = some cache ∧ zoneRoutine c.1 = some zr ∧ c.2.ref = ref)
   tmp_fresh : ∀ c ∈ calls, fs₀ c.2.tmp = none ∧ ¬ isInput c.2.tmp ∧ c.2.tmp ≠ cache
   tmp_distinct : ∀ (i j : Nat) (ci cj : Routine × Args P), calls[i]? = some ci → calls[j]? = some cj → i ≠ j → ci.2.tmp ≠ cj.2.tmp
   outs : ∀ c ∈ calls, ∀ o, c.2.outs o → ¬ isInput o ∧ o ≠ cache ∧ ∀ c' ∈ calls, o ≠ c'.2.tmp
+
+/-- the directory conditions plus: the zone that is computed and written can be read back -/
+structure SharedZoneRun (W : Work L Z R) (fs₀ : FS P L) (isInput : P → Prop) (ref cache : P) (zr : Routine)
+    (calls : List (Routine × Args P)) : Prop extends SharedZoneDir fs₀ isInput ref cache zr calls where
+  roundtrip : ∀ rc, W.parse (W.render (W.compute zr rc)) = .ok (W.compute zr rc)
 
 /-! ### the writer of the pinned tree (kept for the regression theorem): zone file written in place -/
 
